@@ -10,7 +10,7 @@ namespace Goml.GoComp
 open Goml Goml.Go Goml.GoCompile Goml.GoFrag
 open Goml.Sem (Val World Res Fail)
 open Goml.C01 (toG)
-open Goml.Dce (keys allDecls lookup_cons_self lookup_cons_ne lookup_none_of_not_key key_of_lookup_some
+open Goml.Dce (keys lookup_cons_self lookup_cons_ne lookup_none_of_not_key key_of_lookup_some
   keys_update lookup_update_ne lookup_update_self update_not_key)
 
 attribute [local irreducible] Goml.GoCompile.vn Goml.GoCompile.gid Goml.GoCompile.rn
@@ -23,8 +23,7 @@ structure Link (env : Env) (file : AFile) (G : List String) (P : Prog) (F : GFil
   fnGo : ∀ g, g ∈ file → g.name ∈ G →
     ∃ st, F.findFunc (fnName g.name) = some (compileFn env st g).1 ∧ localOK env file G st g = true
   builtinSrc : ∀ b, b ∈ builtinNames → P.findFn b = none
-  structs : structsClosed env = true
-  table : ∀ n, n ∈ goodStructs env → structTableOK env F n = true
+  ty : TyLink env F
 
 /-- where the value of an assigned expression goes -/
 def post (m : Mode) (gρ : GEnv) (gv : GVal) : GEnv :=
@@ -52,14 +51,36 @@ def TgtOK (m : Mode) (Γ : Ctx) (gρ : GEnv) (ty : Ty) : Prop :=
 /-- what a run of the compiled statements `S` must do, given what the `Sem` run did -/
 def Concl (env : Env) (F : GFile) (S : List GStmt) (m : Mode) (gρ : GEnv) (gw : GWorld) (ty : Ty) : Res Val → Prop
   | .ok v w' => ∃ D gv gw', BlockS F gρ gw S (.ok (D ++ post m gρ gv, .normal) gw') ∧ toGV env v = some gv ∧ HasTy env v ty ∧
-      WRel w' gw' ∧ (∀ y, y ∈ keys D → y ∈ allDecls S)
+      WRel w' gw' ∧ (∀ y, y ∈ keys D → y ∈ ndDecls S)
   | .fail (.panic k) w' => ∃ gw', BlockS F gρ gw S (.fail (.panic k) gw') ∧ WRel w' gw'
   | _ => True
 
-/-- the same at expression level (a simple `CExpr` compiled by `compile_cexpr`) -/
-def ConclV (env : Env) (F : GFile) (e : GExpr) (gρ : GEnv) (gw : GWorld) (ty : Ty) : Res Val → Prop
-  | .ok v w' => ∃ gv gw', EvS F gρ gw e (.ok gv gw') ∧ toGV env v = some gv ∧ HasTy env v ty ∧ WRel w' gw'
-  | .fail (.panic k) w' => ∃ gw', EvS F gρ gw e (.fail (.panic k) gw') ∧ WRel w' gw'
+/-- forms whose `Sem` evaluation leaves the world as it is (everything but calls) -/
+def pureC : CExpr → Bool
+  | .imm _ => true
+  | .constr _ _ _ => true
+  | .tuple _ _ => true
+  | .array _ _ => true
+  | .cget _ _ _ _ => true
+  | .un _ _ _ => true
+  | .bin _ _ _ _ => true
+  | .proj _ _ _ => true
+  | _ => false
+
+/-- forms whose `Sem` evaluation can panic (division, calls) -/
+def mayPanicC : CExpr → Bool
+  | .bin _ _ _ _ => true
+  | .call _ _ _ => true
+  | .dynCall _ _ _ _ _ => true
+  | _ => false
+
+/-- the same at expression level (a simple `CExpr` compiled by `compile_cexpr`); `pure`: the form
+    cannot touch the world, and then the `Sem` world after it is the one before (`w`); only the forms
+    of `mayPanic` panic -/
+def ConclV (env : Env) (F : GFile) (e : GExpr) (gρ : GEnv) (gw : GWorld) (ty : Ty) (pure mayPanic : Bool) (w : World) : Res Val → Prop
+  | .ok v w' => ∃ gv gw', EvS F gρ gw e (.ok gv gw') ∧ toGV env v = some gv ∧ HasTy env v ty ∧ WRel w' gw' ∧
+      (pure = true → w' = w)
+  | .fail (.panic k) w' => ∃ gw', EvS F gρ gw e (.fail (.panic k) gw') ∧ WRel w' gw' ∧ mayPanic = true
   | _ => True
 
 /-- a call: `Sem.apply` of a named function against `callG` of its Go name -/
@@ -84,22 +105,22 @@ def SimB (n : Nat) : Prop :=
 
 /-- simple complex expressions (everything `compile_cexpr` handles) -/
 def SimV (n : Nat) : Prop :=
-  ∀ (c : CExpr) (Γ : Ctx) (ρ : Sem.Env) (w : World) (gρ : GEnv) (gw : GWorld) (Bad : List String),
-    isCtl c = false → fragC env file G Γ c = true → EnvRel env Γ ρ gρ → WRel w gw →
+  ∀ (c : CExpr) (Γ : Ctx) (K : KCtx) (ρ : Sem.Env) (w : World) (gρ : GEnv) (gw : GWorld) (Bad : List String),
+    isCtl c = false → fragC env file G Γ K c = true → EnvRel env Γ ρ gρ → KRel K ρ → WRel w gw →
     (∀ y, y ∈ keys gρ → ¬ y ∈ Bad) → (∀ x, x ∈ calleesC c → vn x ∈ Bad) →
-    ConclV env F (compileCExpr env c) gρ gw c.annTy (Sem.eval n P ρ w c.toExpr)
+    ConclV env F (compileCExpr env c) gρ gw c.annTy (pureC c) (mayPanicC c) w (Sem.eval n P ρ w c.toExpr)
 
 /-- `AExpr`s in either statement lowering -/
 def SimA (n : Nat) : Prop :=
-  ∀ (m : Mode) (st : St) (e : AExpr) (Γ : Ctx) (ρ : Sem.Env) (w : World) (gρ : GEnv) (gw : GWorld) (Bad : List String),
-    fragA env file G Γ e = true → EnvRel env Γ ρ gρ → WRel w gw →
+  ∀ (m : Mode) (st : St) (e : AExpr) (Γ : Ctx) (K : KCtx) (ρ : Sem.Env) (w : World) (gρ : GEnv) (gw : GWorld) (Bad : List String),
+    fragA env file G Γ K e = true → EnvRel env Γ ρ gρ → KRel K ρ → WRel w gw →
     GInv Bad (compileA env m st e).1 gρ → TgtOK m Γ gρ (aTy e) → "_" ∈ Bad → (∀ x, x ∈ calleesA e → vn x ∈ Bad) →
     Concl env F (compileA env m st e).1 m gρ gw (aTy e) (Sem.eval n P ρ w e.toExpr)
 
 /-- `CExpr`s in tail position of either statement lowering -/
 def SimC (n : Nat) : Prop :=
-  ∀ (m : Mode) (st : St) (c : CExpr) (Γ : Ctx) (ρ : Sem.Env) (w : World) (gρ : GEnv) (gw : GWorld) (Bad : List String),
-    fragC env file G Γ c = true → EnvRel env Γ ρ gρ → WRel w gw →
+  ∀ (m : Mode) (st : St) (c : CExpr) (Γ : Ctx) (K : KCtx) (ρ : Sem.Env) (w : World) (gρ : GEnv) (gw : GWorld) (Bad : List String),
+    fragC env file G Γ K c = true → EnvRel env Γ ρ gρ → KRel K ρ → WRel w gw →
     GInv Bad (compileTail env m st c).1 gρ → TgtOK m Γ gρ c.annTy → "_" ∈ Bad → (∀ x, x ∈ calleesC c → vn x ∈ Bad) →
     Concl env F (compileTail env m st c).1 m gρ gw c.annTy (Sem.eval n P ρ w c.toExpr)
 
@@ -110,15 +131,70 @@ def loopBody (cv : String) (st : St) (c b : AExpr) : List GStmt :=
     (compileA env .effect (compileA env (.assign cv) st c).2 b).1
 
 def SimL (n : Nat) : Prop :=
-  ∀ (cv : String) (st : St) (c b : AExpr) (Γ : Ctx) (ρ : Sem.Env) (w : World) (gρ : GEnv) (gw : GWorld) (Bad : List String),
-    fragA env file G Γ c = true → aTy c = .bool → fragA env file G Γ b = true → aTy b = .unit →
-    EnvRel env Γ ρ gρ → WRel w gw → GInv Bad (loopBody env cv st c b) gρ → TgtOK (.assign cv) Γ gρ .bool → "_" ∈ Bad →
+  ∀ (cv : String) (st : St) (c b : AExpr) (Γ : Ctx) (K : KCtx) (ρ : Sem.Env) (w : World) (gρ : GEnv) (gw : GWorld) (Bad : List String),
+    fragA env file G Γ K c = true → aTy c = .bool → fragA env file G Γ K b = true → aTy b = .unit →
+    EnvRel env Γ ρ gρ → KRel K ρ → WRel w gw → GInv Bad (loopBody env cv st c b) gρ → TgtOK (.assign cv) Γ gρ .bool → "_" ∈ Bad →
     (∀ x, x ∈ calleesA c ++ calleesA b → vn x ∈ Bad) →
     match Sem.eval n P ρ w (.while c.toExpr b.toExpr) with
     | .ok v w' => v = .unit ∧ ∃ gw', StmtS F gρ gw (.loop (loopBody env cv st c b))
         (.ok (updateG gρ (gid cv) (.bool false), .normal) gw') ∧ WRel w' gw'
     | .fail (.panic k) w' => ∃ gw', StmtS F gρ gw (.loop (loopBody env cv st c b)) (.fail (.panic k) gw') ∧ WRel w' gw'
     | _ => True
+
+/-- what the selected clause of a `switch` / type switch must do (the clauses are nested blocks:
+    nothing they declare survives) -/
+def ConclSw (env : Env) (run : GRes (GEnv × Sig) → Prop) (m : Mode) (gρ : GEnv) (ty : Ty) : Res Val → Prop
+  | .ok v w' => ∃ gv gw', run (.ok (post m gρ gv, .normal) gw') ∧ toGV env v = some gv ∧ HasTy env v ty ∧ WRel w' gw'
+  | .fail (.panic k) w' => ∃ gw', run (.fail (.panic k) gw') ∧ WRel w' gw'
+  | _ => True
+
+/-- the names the compiled arms declare -/
+def armDecls : List (Imm × List GStmt) → List String
+  | [] => []
+  | p :: rest => ndDecls p.2 ++ armDecls rest
+
+def optDecls : Option (List GStmt) → List String
+  | some b => ndDecls b
+  | none => []
+
+/-- the arms of a `match` on an enum variable against the clauses of the type switch; `gρ` already
+    holds the binding of the switch -/
+def SimME (n : Nat) : Prop :=
+  ∀ (m : Mode) (st : St) (arms : List AArm) (d : ADflt) (ty : Ty) (Γ : Ctx) (K : KCtx) (ρ : Sem.Env) (w : World)
+    (gρ : GEnv) (gw : GWorld) (Bad : List String) (x en : String) (i : Nat) (vs : List Val) (gv : GVal),
+    fragArms env file G Γ K (.enumK x (.enum en)) ty arms = true → fragD env file G Γ K ty d = true →
+    EnvRel env Γ ρ gρ → KRel K ρ → WRel w gw →
+    Sem.lookupEnv ρ x = some (.enumV en i vs) → HasTy env (.enumV en i vs) (.enum en) → toGV env (.enumV en i vs) = some gv →
+    GInvN Bad (armDecls (compileArms env m st arms).1 ++ optDecls (compileDflt env m (compileArms env m st arms).2 d).1) gρ →
+    TgtOK m Γ gρ ty → "_" ∈ Bad → (∀ c, c ∈ calleesArms arms ++ calleesD d → vn c ∈ Bad) →
+    ConclSw env (TSwS F gρ gw gv (typeCases env (compileArms env m st arms).1) (compileDflt env m (compileArms env m st arms).2 d).1)
+      m gρ ty (Sem.evalArms n P ρ w (.enumV en i vs) (armsToExpr arms) (dfltToExpr d))
+
+/-- the arms of a `match` on a bool / integer / string against the cases of the value switch -/
+def SimMV (n : Nat) : Prop :=
+  ∀ (m : Mode) (st : St) (arms : List AArm) (d : ADflt) (ty sty : Ty) (Γ : Ctx) (K : KCtx) (ρ : Sem.Env) (w : World)
+    (gρ : GEnv) (gw : GWorld) (Bad : List String) (v : Val) (gv : GVal),
+    switchTy sty = true → fragArms env file G Γ K (.valK sty) ty arms = true → fragD env file G Γ K ty d = true →
+    EnvRel env Γ ρ gρ → KRel K ρ → WRel w gw → HasTy env v sty → toGV env v = some gv →
+    GInvN Bad (armDecls (compileArms env m st arms).1 ++ optDecls (compileDflt env m (compileArms env m st arms).2 d).1) gρ →
+    TgtOK m Γ gρ ty → "_" ∈ Bad → (∀ c, c ∈ calleesArms arms ++ calleesD d → vn c ∈ Bad) →
+    ConclSw env (SwS F gρ gw gv (valueCases (matchKind sty) (compileArms env m st arms).1) (compileDflt env m (compileArms env m st arms).2 d).1)
+      m gρ ty (Sem.evalArms n P ρ w v (armsToExpr arms) (dfltToExpr d))
+
+/-- the statements a `match` on unit becomes: the first arm, else the default, in place -/
+def unitStmts (m : Mode) (st : St) (arms : List AArm) (d : ADflt) : List GStmt × St :=
+  if arms.isEmpty then compileDfltUnit env m st d else compileFirstArm env m st arms
+
+def fragUnit (Γ : Ctx) (K : KCtx) (ty : Ty) (arms : List AArm) (d : ADflt) : Bool :=
+  if arms.isEmpty then isSomeD d && fragD env file G Γ K ty d else fragFirst env file G Γ K ty arms
+
+def SimMU (n : Nat) : Prop :=
+  ∀ (m : Mode) (st : St) (arms : List AArm) (d : ADflt) (ty : Ty) (Γ : Ctx) (K : KCtx) (ρ : Sem.Env) (w : World)
+    (gρ : GEnv) (gw : GWorld) (Bad : List String),
+    fragUnit env file G Γ K ty arms d = true → EnvRel env Γ ρ gρ → KRel K ρ → WRel w gw →
+    GInv Bad (unitStmts env m st arms d).1 gρ → TgtOK m Γ gρ ty → "_" ∈ Bad →
+    (∀ c, c ∈ calleesArms arms ++ calleesD d → vn c ∈ Bad) →
+    Concl env F (unitStmts env m st arms d).1 m gρ gw ty (Sem.evalArms n P ρ w .unit (armsToExpr arms) (dfltToExpr d))
 
 structure SimAt (n : Nat) : Prop where
   u : SimU env file G P F n
@@ -127,6 +203,9 @@ structure SimAt (n : Nat) : Prop where
   a : SimA env file G P F n
   c : SimC env file G P F n
   l : SimL env file G P F n
+  me : SimME env file G P F n
+  mv : SimMV env file G P F n
+  mu : SimMU env file G P F n
 end
 
 end Goml.GoComp
